@@ -269,7 +269,14 @@ func (k Keeper) UpdateDispute(
 			result = types.VoteResult_NO_QUORUM_MAJORITY_INVALID
 		}
 	default:
-		return errors.New("no majority")
+		// no choice has a strict majority (equal best sums, or no votes counted at all):
+		// the round is decided as invalid instead of returning an error, which in BeginBlock
+		// (tally after the voting period) would fail every subsequent block
+		if quorum {
+			result = types.VoteResult_INVALID
+		} else {
+			result = types.VoteResult_NO_QUORUM_MAJORITY_INVALID
+		}
 	}
 	vote.VoteResult = result
 	vote.VoteEnd = sdk.UnwrapSDKContext(ctx).BlockTime()
